@@ -4,6 +4,14 @@
 //     overload n | nt | c | ct | r | rt   (normals / +curvatures / +reliability; `t` = caller-supplied kd-tree)
 //     init     default | zero | junk      (how the caller's NormalSet is initialised before the call)
 //   -> ok n <per point: normal[DIM] [w if homogeneous] [curvature] [reliability]> | <per point: gap knngap lv res curv relinv tr l1>
+//   nrm.cloud T n coords...    the case keeps ONE point set of type T and ONE KdTree<T> built on it (replacing the previous
+//                              ones of that type)                                                         -> ok n
+//   nrm.est T k                the case keeps ONE NormalAndCurvatureEstimation<T>(k) (replacing the previous one) -> ok
+//   nrm.use T overload init    the kept estimator runs on the kept point set: `nt|ct|rt` through the KEPT tree (so one tree
+//                              serves estimators with different k, one estimator serves several trees), `n|c|r` through
+//                              the overloads that build their own tree        -> same answer format as nrm.compute
+//                              (bad-op without point set / estimator, or when k >= n: the asserted precondition)
+//   `#case` destroys all kept objects.
 //   The part behind `|` is computed here in long double from a brute-force neighbourhood (own Jacobi iteration, no Eigen):
 //   relative eigen-gap (l1-l0)/lmax of the reference covariance, relative gap between the k-th and (k+1)-th neighbour
 //   distance, lv = (n' C n - l0)/trace (excess variance along the returned normal), res = eigen-pair residual of the
@@ -11,6 +19,7 @@
 //   inverse reliability l0/min(l1..), trace and second eigenvalue of the reference covariance.
 #include <algorithm>
 #include <array>
+#include <memory>
 #include <numeric>
 #include "proto.hpp"
 #include "romea_core_common/pointset/algorithms/NormalAndCurvatureEstimation.hpp"
@@ -101,37 +110,48 @@ template<class S, int DIM> static std::string post(const std::vector<std::array<
   return reference<DIM>(cl, nl, k);
 }
 
-template<class P> static std::string run(const Toks & t)
+template<class P> static NormalSet<P> makeNormals(const std::string & init, size_t n)
+{
+  using S = typename P::Scalar;
+  if (init == "default") { return NormalSet<P>(n); }
+  if (init == "zero") { return NormalSet<P>(n, P::Zero()); }
+  if (init == "junk") { return NormalSet<P>(n, P::Constant(S(7.5))); }
+  throw vp::BadOp();
+}
+
+template<class P> static PointSet<P> parsePoints(const Toks & t, size_t from, size_t n)
 {
   using S = typename P::Scalar;
   constexpr int DIM = PointTraits<P>::DIM;
   constexpr int SIZE = PointTraits<P>::SIZE;
-  size_t k = vp::parseU(t[2]);
-  const std::string & ov = t[3];
-  const std::string & init = t[4];
-  size_t n = vp::parseU(t[5]);
-  if (t.size() != 6 + n * DIM || n <= k || k == 0) { throw vp::BadOp(); }
   PointSet<P> pts(n);
   for (size_t i = 0; i < n; ++i) {
     P p = P::Zero();
-    for (int d = 0; d < DIM; ++d) { p[d] = vp::parseF<S>(t[6 + i * DIM + d]); }
+    for (int d = 0; d < DIM; ++d) { p[d] = vp::parseF<S>(t[from + i * DIM + d]); }
     if (SIZE > DIM) { p[DIM] = 1; }
     pts[i] = p;
   }
-  NormalSet<P> normals;
-  if (init == "default") { normals = NormalSet<P>(n); }
-  else if (init == "zero") { normals = NormalSet<P>(n, P::Zero()); }
-  else if (init == "junk") { normals = NormalSet<P>(n, P::Constant(S(7.5))); }
-  else { throw vp::BadOp(); }
+  return pts;
+}
+
+// one estimation with the given estimator object; `tree` (caller-owned) is used by the `t` overloads only
+template<class P> static std::string estimate(
+  NormalAndCurvatureEstimation<P> & est, size_t k, const PointSet<P> & pts, const KdTree<P> * tree,
+  const std::string & ov, const std::string & init)
+{
+  using S = typename P::Scalar;
+  constexpr int DIM = PointTraits<P>::DIM;
+  constexpr int SIZE = PointTraits<P>::SIZE;
+  size_t n = pts.size();
+  NormalSet<P> normals = makeNormals<P>(init, n);
   std::vector<S> curv(n, S(-1)), rel(n, S(-1));
-  NormalAndCurvatureEstimation<P> est(k);
   bool hasC = false, hasR = false;
   if (ov == "n") { est.compute(pts, normals); }
-  else if (ov == "nt") { KdTree<P> tree(pts); est.compute(pts, tree, normals); }
+  else if (ov == "nt") { est.compute(pts, *tree, normals); }
   else if (ov == "c") { est.compute(pts, normals, curv); hasC = true; }
-  else if (ov == "ct") { KdTree<P> tree(pts); est.compute(pts, tree, normals, curv); hasC = true; }
+  else if (ov == "ct") { est.compute(pts, *tree, normals, curv); hasC = true; }
   else if (ov == "r") { est.compute(pts, normals, curv, rel); hasC = hasR = true; }
-  else if (ov == "rt") { KdTree<P> tree(pts); est.compute(pts, tree, normals, curv, rel); hasC = hasR = true; }
+  else if (ov == "rt") { est.compute(pts, *tree, normals, curv, rel); hasC = hasR = true; }
   else { throw vp::BadOp(); }
 
   std::string o = "ok " + std::to_string(n);
@@ -151,20 +171,92 @@ template<class P> static std::string run(const Toks & t)
   return o;
 }
 
-static void reset() {}
+static bool knownOverload(const std::string & ov)
+{
+  return ov == "n" || ov == "nt" || ov == "c" || ov == "ct" || ov == "r" || ov == "rt";
+}
+
+template<class P> static std::string run(const Toks & t)
+{
+  constexpr int DIM = PointTraits<P>::DIM;
+  size_t k = vp::parseU(t[2]);
+  const std::string & ov = t[3];
+  const std::string & init = t[4];
+  size_t n = vp::parseU(t[5]);
+  if (t.size() != 6 + n * DIM || n <= k || k == 0 || !knownOverload(ov)) { throw vp::BadOp(); }
+  PointSet<P> pts = parsePoints<P>(t, 6, n);
+  NormalAndCurvatureEstimation<P> est(k);
+  if (ov.size() == 2) { KdTree<P> tree(pts); return estimate<P>(est, k, pts, &tree, ov, init); }
+  return estimate<P>(est, k, pts, nullptr, ov, init);
+}
+
+// the objects a case keeps between ops (one set per point type)
+template<class P> struct Kept
+{
+  std::unique_ptr<PointSet<P>> pts;           // the tree refers to it (NanoFlannAdaptor::m_data)
+  std::unique_ptr<KdTree<P>> tree;
+  std::unique_ptr<NormalAndCurvatureEstimation<P>> est;
+  size_t k = 0;
+  void clear() { est.reset(); tree.reset(); pts.reset(); k = 0; }
+  static Kept & get() { static Kept kept; return kept; }
+};
+
+template<class P> static std::string session(const Toks & t)
+{
+  constexpr int DIM = PointTraits<P>::DIM;
+  Kept<P> & kept = Kept<P>::get();
+  if (t[0] == "nrm.cloud") {
+    if (t.size() < 3) { throw vp::BadOp(); }
+    size_t n = vp::parseU(t[2]);
+    if (n == 0 || t.size() != 3 + n * DIM) { throw vp::BadOp(); }
+    auto pts = std::make_unique<PointSet<P>>(parsePoints<P>(t, 3, n));
+    kept.tree.reset();
+    kept.pts = std::move(pts);
+    kept.tree = std::make_unique<KdTree<P>>(*kept.pts);
+    return "ok " + std::to_string(n);
+  }
+  if (t[0] == "nrm.est") {
+    if (t.size() != 3) { throw vp::BadOp(); }
+    size_t k = vp::parseU(t[2]);
+    if (k == 0) { throw vp::BadOp(); }
+    kept.est.reset(new NormalAndCurvatureEstimation<P>(k));
+    kept.k = k;
+    return "ok";
+  }
+  if (t[0] == "nrm.use") {
+    if (t.size() != 4 || !knownOverload(t[2])) { throw vp::BadOp(); }
+    if (t[3] != "default" && t[3] != "zero" && t[3] != "junk") { throw vp::BadOp(); }
+    if (!kept.pts || !kept.est || kept.k >= kept.pts->size()) { throw vp::BadOp(); }
+    return estimate<P>(*kept.est, kept.k, *kept.pts, kept.tree.get(), t[2], t[3]);
+  }
+  throw vp::BadOp();
+}
+
+template<class P> static std::string dispatch(const Toks & t)
+{
+  return t[0] == "nrm.compute" ? run<P>(t) : session<P>(t);
+}
+
+static void reset()
+{
+  Kept<Eigen::Vector2d>::get().clear(); Kept<Eigen::Vector3d>::get().clear();
+  Kept<HomogeneousCoordinates2d>::get().clear(); Kept<HomogeneousCoordinates3d>::get().clear();
+  Kept<Eigen::Vector2f>::get().clear(); Kept<Eigen::Vector3f>::get().clear();
+  Kept<HomogeneousCoordinates2f>::get().clear(); Kept<HomogeneousCoordinates3f>::get().clear();
+}
 
 static std::string handle(const Toks & t)
 {
-  if (t[0] == "nrm.compute" && t.size() >= 6) {
+  if ((t[0] == "nrm.compute" && t.size() >= 6) || ((t[0] == "nrm.cloud" || t[0] == "nrm.est" || t[0] == "nrm.use") && t.size() >= 2)) {
     const std::string & ty = t[1];
-    if (ty == "c2d") { return run<Eigen::Vector2d>(t); }
-    if (ty == "c3d") { return run<Eigen::Vector3d>(t); }
-    if (ty == "h2d") { return run<HomogeneousCoordinates2d>(t); }
-    if (ty == "h3d") { return run<HomogeneousCoordinates3d>(t); }
-    if (ty == "c2f") { return run<Eigen::Vector2f>(t); }
-    if (ty == "c3f") { return run<Eigen::Vector3f>(t); }
-    if (ty == "h2f") { return run<HomogeneousCoordinates2f>(t); }
-    if (ty == "h3f") { return run<HomogeneousCoordinates3f>(t); }
+    if (ty == "c2d") { return dispatch<Eigen::Vector2d>(t); }
+    if (ty == "c3d") { return dispatch<Eigen::Vector3d>(t); }
+    if (ty == "h2d") { return dispatch<HomogeneousCoordinates2d>(t); }
+    if (ty == "h3d") { return dispatch<HomogeneousCoordinates3d>(t); }
+    if (ty == "c2f") { return dispatch<Eigen::Vector2f>(t); }
+    if (ty == "c3f") { return dispatch<Eigen::Vector3f>(t); }
+    if (ty == "h2f") { return dispatch<HomogeneousCoordinates2f>(t); }
+    if (ty == "h3f") { return dispatch<HomogeneousCoordinates3f>(t); }
   }
   throw vp::BadOp();
 }
